@@ -38,7 +38,7 @@ from ..core import (
     unparse,
     walk_no_nested,
 )
-from ..flow import Opaque, _stmt_chain, always_exits, guards, loops_around, reaching
+from ..flow import Opaque, _stmt_chain, always_exits, dealias, guards, loops_around, reaching
 from ..resolve import enum_members, method_def, resolve_callee
 
 MODEL = "model.reconciliation"
@@ -856,6 +856,7 @@ def width_verbatim(prog: Program) -> RuleResult:
             n += 1
             if arg is None:
                 raise AnalysisError(f"{construct}: width argument not found")
+            arg = dealias(fn, arg, call)
             if isinstance(arg, ast.Attribute) and arg.attr.endswith("_width"):
                 # which label is being wrapped: a synteny (event label) or the name of a species
                 want = None
@@ -1714,13 +1715,20 @@ def cli_flow_table(prog: Program) -> RuleResult:
             fp = c.args[1] if len(c.args) > 1 else kwarg(c, "fp")
             if not (isinstance(doc, ast.Call) and isinstance(doc.func, ast.Attribute) and doc.func.attr == "to_dict" and dotted(doc.func.value) == var):
                 problems.append(f"the document is `{short(doc)}`, not the dictionary form of the solution")
-            if dotted(fp) != f"{d_args}.output":
+            def is_output(e: Optional[ast.AST], at: ast.AST) -> bool:
+                """`<args>.output`, directly or through a local bound to it"""
+                if isinstance(e, ast.Name):
+                    got = reaching(dfn, e.id, at)
+                    e = got if got is not None and not isinstance(got, Opaque) else e
+                return e is not None and dotted(e) == f"{d_args}.output"
+
+            if not is_output(fp, c):
                 problems.append(f"the document goes to `{short(fp)}`, not to the output file")
             after = body_calls[body_calls.index(c) + 1:]
             newline = [
                 x for x in after
-                if (dotted(x.func) == "print" and any(kw.arg == "file" and dotted(kw.value) == f"{d_args}.output" for kw in x.keywords))
-                or (isinstance(x.func, ast.Attribute) and x.func.attr == "write" and dotted(x.func.value) == f"{d_args}.output")
+                if (dotted(x.func) == "print" and any(kw.arg == "file" and is_output(kw.value, x) for kw in x.keywords))
+                or (isinstance(x.func, ast.Attribute) and x.func.attr == "write" and is_output(x.func.value, x))
             ]
             if not newline:
                 problems.append("no newline separates the documents (the output is no longer one JSON object per line)")
